@@ -449,6 +449,7 @@ package shell_operator
 //@        && dyntype(metaOf(t, ep0), task_metadata.HookMetadata) && len(metaOf(t, ep0).(task_metadata.HookMetadata).BindingContext) > 0
 //@        && !(metaOf(t, ep0).(task_metadata.HookMetadata).BindingType == "kubernetes" && metaOf(t, ep0).(task_metadata.HookMetadata).BindingContext[0].Type == kemTypes.TypeSynchronization && metaOf(t, ep0).(task_metadata.HookMetadata).Group == "")
 //@        ==> nCombine == old(nCombine) + 1
+//@   ensures [skipped-run-does-not-combine @C06,C07] hook.nRun == old(hook.nRun) ==> nCombine == old(nCombine) && nUpdateMeta == old(nUpdateMeta)
 //@   ensures [no-extra-tasks]       len(result.HeadTasks) == 0 && len(result.TailTasks) == 0 && len(result.AfterTasks) == 0
 //@   loop 1
 //@     invariant nUnlock >= old(nUnlock) && res.Status == "Success"
